@@ -1,2 +1,40 @@
-(** C05 *)
-From Coq Require Import List.
+(** C05 — expected-token lists.
+    Proved here for ANY tables (no recovery): every expected list the parser reports has no
+    duplicates and only names terminals below tn_names (= |__TERMINAL|), hence never the error
+    pseudo-terminal whose column is tn_names; the list is in table order.
+    Not proved yet (partial): that every listed terminal is a viable continuation (needs the
+    viable-prefix invariant), and completeness for canonical LR(1).  The check decides both per run
+    with an independent Earley oracle. *)
+From Coq Require Import List ZArith Lia.
+From LV Require Import LR.Driver LR.Validator LR.ErrorPos.
+Import ListNotations.
+
+Theorem C05_expected_nodup_no_error_terminal : forall A orc fuel w s,
+  uses_recovery A = false ->
+  (forall k exp, drive A orc fuel (map IOk w) = (RErr (PUnrecTok k exp), s) ->
+     NoDup exp /\ forall x, In x exp -> x < tn_names A) /\
+  (forall loc exp, drive A orc fuel (map IOk w) = (RErr (PUnrecEof loc exp), s) ->
+     NoDup exp /\ forall x, In x exp -> x < tn_names A).
+Proof.
+  intros A orc fuel w s Hn. split; intros a exp H.
+  - eapply proj2. eapply unrecognized_token_position; eauto.
+  - eapply proj2. eapply unrecognized_eof_position; eauto.
+Qed.
+Print Assumptions C05_expected_nodup_no_error_terminal.
+
+(* an expected list is exactly the filter of 0..tn_names-1 by the accepts simulation on the
+   current state stack: this is what ties the list to the automaton *)
+Theorem C05_expected_is_accepts_filter : forall A fuel l n i L,
+  expected_go A fuel l i n = EList L ->
+  forall x, In x L -> i <= x < i + n /\ accepts A fuel l (Some x) = ATrue.
+Proof.
+  intros A fuel l. induction n as [|n IH]; intros i L H x Hx; simpl in H.
+  - inversion H; subst. destruct Hx.
+  - destruct (accepts A fuel l (Some i)) eqn:Ha; try discriminate.
+    + destruct (expected_go A fuel l (S i) n) as [L'| |] eqn:HL; try discriminate.
+      inversion H; subst. destruct Hx as [<-|Hx].
+      * split; [lia|exact Ha].
+      * destruct (IH (S i) L' HL x Hx) as [Hr Hacc]. split; [lia|exact Hacc].
+    + destruct (IH (S i) L H x Hx) as [Hr Hacc]. split; [lia|exact Hacc].
+Qed.
+Print Assumptions C05_expected_is_accepts_filter.
